@@ -318,13 +318,24 @@ def big_case(draw):
     order = list(draw(st.permutations(list(range(p)))))
     W = [[0] * p for _ in range(p)]
     for b in range(1, p):
-        k = draw(st.sampled_from([0, 1, 1, 2]))
+        k = draw(st.sampled_from([1, 2, 1, 0]))
         for a in draw(st.lists(st.integers(max(0, b - 6), b - 1), min_size=min(k, b), max_size=min(k, b), unique=True)):
             W[order[a]][order[b]] = fstr(draw(st.sampled_from([Fraction(1), Fraction(-1), Fraction(1, 2), Fraction(-3, 2)])))
     means = [draw(st.integers(-2, 2)) for _ in range(p)]
     variances = [draw(st.integers(1, 3)) for _ in range(p)]
     lo = draw(st.integers(0, 62))
     hi1, hi2 = draw(st.integers(64, p - 1)), draw(st.integers(64, p - 1))
+    pos = {v: k for k, v in enumerate(order)}
+    for h in (hi1, hi2):           # the high-labelled targets must have incoming edges for a do-intervention to matter
+        if not any(W[i][h] != 0 for i in range(p)):
+            src = order[pos[h] - 1] if pos[h] > 0 else None
+            if src is None:        # h is first in the causal order: move it behind its successor instead
+                order[0], order[1] = order[1], order[0]
+                W = [[0] * p for _ in range(p)]
+                for b in range(1, p):
+                    W[order[b - 1]][order[b]] = 1
+            else:
+                W[src][h] = fstr(Fraction(-3, 2))
     par = lambda: [fstr(Fraction(draw(st.integers(-8, 8)), 4)), fstr(Fraction(draw(st.integers(1, 8)), 4))]
     first = {str(lo): par()}
     second = {str(lo): first[str(lo)], str(hi1): par()}
@@ -361,7 +372,7 @@ def plan(tier, seed):
     shards = 16 if tier == "quick" else 64
     for k in range(shards):
         jobs.append({"sub": "law", "seed": seed, "shard": k, "n": max(1, n // shards), "p_max": 8 if tier == "quick" else 12, "cost": 10})
-    nb = scaled(16 if tier == "quick" else 320)
+    nb = scaled(48 if tier == "quick" else 640)
     for k in range(16 if tier == "quick" else 32):
         jobs.append({"sub": "law_big", "seed": seed, "shard": k, "salt": 11, "n": max(1, nb // (16 if tier == "quick" else 32)), "cost": 30})
     nr = scaled(1600 if tier == "quick" else 20000)
